@@ -342,6 +342,11 @@ def run(ctx, rep):
                        "handed back is not released before the reply that carries it)")
     _retention_rules(ctx, rep)
     K.share(ctx, rep, "c03", lambda o: o.rule == "R03.9", "R10.9", floor=1)
+    # boxing registers the lent objects BEFORE the message is encoded: an encode failure for a value the codec claims to accept
+    # leaves them registered for a message the peer never sees (no proxy, hence no release notice, ever)
+    rep.rule("R10.12", "a boxed message always encodes: lengths fit their length fields and partial operations of the codec are total "
+                       "(= R04.5, R04.6); otherwise the references boxed for it are never released")
+    K.share(ctx, rep, "c04", lambda o: o.rule in ("R04.5", "R04.6"), "R10.12", floor=5)
     K.share(ctx, rep, "c03", lambda o: o.rule == "R03.2" and "is never refused" in o.key, "R10.7", floor=3)
 
 
